@@ -378,7 +378,7 @@ def pick_sandwich_states(states, gi):
 
 
 def run_fs(ctx, laws, keep, owns, profile=None, twins=False, post=None, lz=False, unsupported_games=False, sandwich=None,
-           mutations=None, big_payloads=False, profile_build="release", also_checked=False):
+           mutations=None, big_payloads=False, profile_build="release", also_checked=False, second_gen=True):
     """model check -> generate -> replay -> validate -> (record -> validate).  Returns (replayed events, recorded events)."""
     binary = ctx.build(profile_build, "mvh_fs")
     # 1. the laws on the bounded model
@@ -388,7 +388,7 @@ def run_fs(ctx, laws, keep, owns, profile=None, twins=False, post=None, lz=False
     else:
         model_check(ctx, "1", laws)                  # all 40 game x language pairs, one mutation deep
         model_check(ctx, "2", laws, tier="quick")    # 4 representative pairs, two mutations deep
-        gens = [("0", None), ("1", "quick")]
+        gens = [("0", None), ("1", "quick")] if second_gen else [("0", None)]
     # 2. spec -> impl
     all_events, n_states, unb_all = [], 0, []
     for gi, (depth, tier) in enumerate(gens):
